@@ -27,7 +27,9 @@ RULE = ("Generator: surfaces <= 12 a side (float64/float32/int64; barrier value 
         "snap switched on for every blocked end) on the listed grids, coordinate class cycled over 12 step/offset/direction/res/off-centre "
         "variants; (b) 'own coordinates': every (step, offset, direction) axis class x axis length {2,3,7,12} x every cell index x res "
         "none/tuple/scalar, exact and 0.48-cell off-centre; (c) the only crossable cell in the corner opposite a blocked, snapped end; (d) a 6x6 "
-        "(quick) / 8x8 (thorough) surface blocked except for two cells x every snapped blocked cell (nearest cell up to 7 cells away). "
+        "(quick) / 8x8 (thorough) surface blocked except for two cells x every snapped blocked cell (nearest cell up to 7 cells away); (e) 14x24 "
+        "(thorough also 16x30) surfaces with one wall pierced by two gaps x every goal behind the wall x every start before it (long detours "
+        "whose two candidate routes differ by as little as 0.07). "
         "Oracle: Dijkstra + chain validity (module docstring). Non-trivial: a route exists between the (possibly snapped) ends AND (the "
         "optimal route is longer than the obstacle-free distance [detour], or a coordinate step is fractional, or snapping moved an end "
         "point); distinct by SHA-1 of the case (random) or enumeration index (exhaustive).")
@@ -690,6 +692,32 @@ def snap_two_cases(n, lo, hi):
                        "snap_start": True, "snap_goal": True, "enum": ["snap_two", n, pi, a, b]}
 
 
+def two_gap_cases(h, w, wall_row, gaps, lo, hi):
+    """Long detours with near-ties: an h x w surface with one wall (row `wall_row`) pierced by two gaps; the goal lies behind the wall, the
+    start anywhere on the other side.  Two routes compete (one per gap) whose lengths a + b*sqrt(2) differ by as little as 0.07 - the class
+    in which a heuristic that over-estimates by a hair (tie-breaking nudges) returns the longer one.  Every (goal column, start cell)
+    with index in [lo, hi), 8-connectivity."""
+    data = [[1.0] * w for _ in range(h)]
+    for j in range(w):
+        if j not in gaps:
+            data[wall_row][j] = 0.0
+    starts = [(i, j) for i in range(wall_row + 1, h) for j in range(w)]
+    goals = [(i, j) for i in range(0, wall_row) for j in range(w)]
+    k = 0
+    for g in goals:
+        for s_ in starts:
+            if lo <= k < hi:
+                yield {"sub": "astar", "kind": "two_gap", "surface": {"dtype": "float64", "data": data}, "barriers": [0],
+                       "y": {"start": 0.0, "step": 1.0, "desc": False, "n": h}, "x": {"start": 0.0, "step": 1.0, "desc": False, "n": w},
+                       "res": "none", "s": list(s_), "g": list(g), "s_off": [0, 0], "g_off": [0, 0], "conn": 8,
+                       "snap_start": False, "snap_goal": False, "enum": ["two_gap", h, w, wall_row, list(gaps), k]}
+            k += 1
+
+
+def two_gap_size(h, w, wall_row):
+    return (h - wall_row - 1) * w * wall_row * w
+
+
 def own_coord_cases(res_mode):
     """'A cell's own coordinates denote that cell' over every (step, offset, direction) axis class x axis length x cell index:
     obstacle-free surface, start = cell (i, j) named by its own coordinates (and, second variant, by a point 0.48 cell off-centre),
@@ -767,6 +795,16 @@ def shards(tier):
         out.append(("snap_two_%dx%d#%d" % (n2, n2, bi), lambda ctx, lo=lo, hi=hi: drive_enum(
             ctx, body_astar, snap_two_cases(n2, lo, hi), space="blocked %dx%d surface with two crossable cells x snapped cell index [%d,%d)" % (n2, n2, lo, hi),
             size=(hi - lo) * (n2 * n2 - 1) * (n2 * n2 - 2) // 2)))
+    tg = [(14, 24, 1, (0, 22)), (14, 24, 1, (1, 23))] if tier != "thorough" else \
+        [(14, 24, 1, (0, 22)), (14, 24, 1, (1, 23)), (14, 24, 1, (0, 23)), (16, 30, 1, (0, 28)), (16, 30, 2, (1, 29)), (14, 24, 2, (2, 21))]
+    for (h_, w_, wr, gaps) in tg:
+        tot = two_gap_size(h_, w_, wr)
+        nb = 3 if tier != "thorough" else 4
+        for bi in range(nb):
+            lo, hi = bi * tot // nb, (bi + 1) * tot // nb
+            out.append(("two_gap_%dx%d_r%d_g%d-%d#%d" % (h_, w_, wr, gaps[0], gaps[1], bi), lambda ctx, h_=h_, w_=w_, wr=wr, gaps=gaps, lo=lo, hi=hi: drive_enum(
+                ctx, body_astar, two_gap_cases(h_, w_, wr, gaps, lo, hi),
+                space="%dx%d surface, wall in row %d with gaps at columns %s x goal x start [%d,%d), 8-connectivity" % (h_, w_, wr, list(gaps), lo, hi), size=hi - lo)))
     out.append(("snap_diag", lambda ctx: drive_enum(ctx, body_astar, diag_cases(), space="only crossable cell in the opposite corner")))
     return out
 
